@@ -194,8 +194,33 @@ def check_or(rep, prog, ci):
                           'the sibling receives a copy, marked as coming from the sibling', where='%s:%d' % (orf.module.relpath, c[3]))
 
 
+def keymaterial_table(prog):
+    """(public?, algorithm member) -> class name, and the texts under which the table is looked up: the dict literal of
+    PubKeyV4.pkalg_int, or the same table kept as a class / module constant."""
+    try:
+        f, tbl = tables.keymaterial_table(prog)
+        return f, tbl, []
+    except AnalysisError:
+        pass
+    ci = prog.cls('pgpy.packet.packets', 'PubKeyV4')
+    f = ci.methods.get('pkalg_int')
+    if f is None:
+        raise AnalysisError('PubKeyV4.pkalg_int vanished')
+    cands = [(n, v, ['%s.%s' % (f.params[0], n), '%s.%s' % (c.name, n)]) for c in ci.mro() if hasattr(c, 'attrs') for n, v in c.attrs.items()] + \
+            [(n, v, [n]) for n, v in ci.module.assigns.items()]
+    used = set(n.attr if isinstance(n, ast.Attribute) else n.id for n in ast.walk(f.node) if isinstance(n, (ast.Attribute, ast.Name)))
+    for name, val, texts in cands:
+        if name in used and isinstance(val, ast.Dict) and val.keys and all(
+                isinstance(k, ast.Tuple) and len(k.elts) == 2 and isinstance(k.elts[0], ast.Constant) and isinstance(k.elts[0].value, bool) for k in val.keys):
+            out = {}
+            for k, v in zip(val.keys, val.values):
+                out[(k.elts[0].value, (dotted(k.elts[1]) or ast.unparse(k.elts[1])).split('.')[-1])] = dotted(v) or ast.unparse(v)
+            return f, out, texts
+    raise AnalysisError('key-material class table of PubKeyV4.pkalg_int not found')
+
+
 def check_table(rep, prog):
-    f, tbl = tables.keymaterial_table(prog)
+    f, tbl, table_names = keymaterial_table(prog)
     fields = prog.module('pgpy.packet.fields')
     privbase = fields.classes.get('PrivKey')
     if privbase is None:
@@ -221,7 +246,7 @@ def check_table(rep, prog):
         sc = Scenario(bind={'%s.public' % me: Const(public)}, inline=noinline)
         looked, classes = set(), set()
         for s in Interp(prog, sc).run(f):
-            dicts = sorted((e[2] for e in s.events if e[0] == 'assign' and e[2].startswith('{(')), key=len, reverse=True)
+            dicts = sorted((e[2] for e in s.events if e[0] == 'assign' and e[2].startswith('{(')), key=len, reverse=True) + table_names
             vals = [v for p, v, l, _ in s.stores if p == '%s.keymaterial' % me]
             if not vals:
                 raise AnalysisError('PubKeyV4.pkalg_int: a path stores no key material')
